@@ -446,6 +446,8 @@ func runC12(t *testing.T, cases []map[string]interface{}, ev *vEvents) {
 			code = pc[0] + "." + pf[1] + "." + pc[2]
 		case "cookie":
 			code = w.mintCookie("alice", AuthTypePassword, 0)
+		case "fresh_late":
+			time.Sleep(3 * time.Second)
 		case "access":
 			c2, _ := w.authorize("alice", vClientA, "none")
 			_, tr := w.redeem(c2, vClientA, vSecretA, "", vRedirect, "header")
@@ -467,6 +469,11 @@ func runC12(t *testing.T, cases []map[string]interface{}, ev *vEvents) {
 			verifier = vVerifier
 		case "wrong":
 			verifier = "wrong-" + vVerifier
+		case "challenge":
+			verifier = vVerifier // plain: the challenge IS the verifier
+			if chal == "S256" {
+				verifier = vS256(vVerifier)
+			}
 		}
 		redirect := vRedirect
 		if vStr(c, "redirect") == "different" {
